@@ -21,6 +21,7 @@ RULE = (
     "10 and 80 (COLUMNS), the whole stream replayed on the emulator after the last operation and compared with the stacked "
     "model; the same sequences on an output without ANSI support must produce exactly the appended lines and no control "
     "code. Random histories of length up to 40, half of them with sections created inside indentation scopes, a fifth with texts of 30 and 70 lines (more rows than a real terminal is high), in thorough also with "
+    "Also: one-column non-ASCII lines (Cyrillic, Greek, accents, symbols) of exactly and just over the width in a quarter of the random histories. "
     "style tags in the text. Two-output histories (2-30 steps): the standard and error output of one I/O object, each with its own stream and screen, sections created singly or pairwise through IO.section(), write_line with flag words at section verbosity 0/1/2/4 (a suppressed write leaves no trace), texts with backslash-escaped '<' whose visible width is at / next to the terminal width. non-trivial = history that touches >= 2 sections with a write to a non-last section, or "
     "contains a wrapped line; distinct by (width, operation tuple)."
 )
